@@ -47,6 +47,9 @@ func checkC03(c *Ctx) {
 	c.Rule("C03-R12", "a matched sequence decodes to the key of its table entry, a one-byte sequence included (wy50/wy60 bind control bytes to the cursor keys): the key handed to NewEventKey by the key matcher is the entry's key field on every path")
 	c.Expect("C03-R12", 1)
 	checkKeyMatcherUsesTableEntry(c, p, "C03-R12")
+	c.Rule("C03-R13", "ESC immediately followed by a key yields that key with Alt, also when the scan runs because the wait expired: the Esc key event itself is built only where the buffer is known to hold the one byte")
+	c.Expect("C03-R13", 1)
+	checkBareEscOnlyForLoneEsc(c, p, "C03-R13")
 	c.Rule("C03-R11", "every entry is found under its name and under each of its aliases as written: AddTerminfo files the entry under both, keyed by the strings themselves (a key folded on one side only loses X-hpterm, the one alias that is not lower case)")
 	c.Expect("C03-R11", 2)
 	c.asRule("C14-R6", "C03-R11", func() { c14Registry(c, p) })
